@@ -383,7 +383,7 @@ func c13r3(c *core.Ctx) {
 					}
 					if pr, isP := s.(*ssa.Parameter); isP {
 						// callback adapters receive the converted value (C12-R3 adapter obligations)
-						return pr.Parent().Parent() != nil || pr.Parent().Name() == "updateValue"
+						return pr.Parent().Parent() != nil || cn(pr.Parent()) == "updateValue"
 					}
 					if _, isLoad := core.FieldLoad(s, tChar, "Value"); isLoad {
 						return true
